@@ -85,6 +85,8 @@ type callSpec struct {
 	ID      string // pkg.Fn#pos[@variant]
 	Base    string // pkg.Fn#pos
 	Src     func(path string) string
+	bc      *bytecode.ByteCode
+	bcErr   error
 	Skipped string
 }
 
@@ -307,11 +309,17 @@ func program(pkg string, d *data.Declaration, pos int, fill map[int]string, deco
 		}
 	}
 
-	return func(path string) string {
-		txt, _, _ := callText(pkg, d, pos, strconv.Quote(deco+path), fill, "c", "call")
+	// the path reaches the program through the variable verifPath (set in the symbol table of each run), so
+	// that one compilation serves every case
+	pathExpr := "verifPath"
+	if deco != "" {
+		pathExpr = strconv.Quote(deco) + " + verifPath"
+	}
 
-		return needImport[pkg] + "try {\n" + txt + follow + "} catch (e) { fmt.Println(\"@@E\", e) }\n"
-	}, ""
+	txt, _, _ := callText(pkg, d, pos, pathExpr, fill, "c", "call")
+	src := needImport[pkg] + "try {\n" + txt + follow + "} catch (e) { fmt.Println(\"@@E\", e) }\n"
+
+	return func(path string) string { return src }, ""
 }
 
 // ---------------------------------------------------------------- inventory (derived)
@@ -976,27 +984,32 @@ func TestVerifSandbox(t *testing.T) {
 					}
 				}()
 
-				bc, err := compiler.CompileString("c26", src, true)
-				if err != nil {
-					runErr = fmt.Errorf("compile: %v", err)
+				cp := &sel[fi]
+				if cp.bc == nil && cp.bcErr == nil {
+					cp.bc, cp.bcErr = compiler.CompileString("c26", src, true)
+					if cp.bcErr == nil {
+						cp.bc.Emit(bytecode.Stop)
+					}
+				}
+
+				if cp.bcErr != nil {
+					runErr = fmt.Errorf("compile: %v", cp.bcErr)
 
 					return
 				}
 
-				bc.Emit(bytecode.Stop)
-
+				bc := cp.bc
 				st := symbols.NewChildSymbolTable("case", console)
+				st.SetAlways("verifPath", path)
 				ctx := bytecode.NewContext(st, bc).Sandboxed(mode == "sand").EnableConsoleOutput(false)
 
 				if marks {
 					_ = syscall.Access(fmt.Sprintf("/@@B/%d/%d", ci, fi), 0)
+
+					defer func() { _ = syscall.Access(fmt.Sprintf("/@@E/%d/%d", ci, fi), 0) }()
 				}
 
 				runErr = ctx.Run()
-
-				if marks {
-					_ = syscall.Access(fmt.Sprintf("/@@E/%d/%d", ci, fi), 0)
-				}
 
 				output = ctx.GetOutput()
 			}()
